@@ -667,6 +667,47 @@ func boolAttributePresence(c *Ctx, rule string) {
 		}
 		return false
 	}
+	// the writer itself, or a local that holds it (out := stringSink{w: w})
+	holders := map[types.Object]bool{}
+	if wobj != nil {
+		holders[wobj] = true
+		ast.Inspect(fd.Body, func(n ast.Node) bool {
+			as, ok := n.(*ast.AssignStmt)
+			if !ok || len(as.Lhs) != len(as.Rhs) {
+				return true
+			}
+			for i, l := range as.Lhs {
+				lid, ok := l.(*ast.Ident)
+				if !ok {
+					continue
+				}
+				rhs := ast.Unparen(as.Rhs[i])
+				if u, isU := rhs.(*ast.UnaryExpr); isU && u.Op == token.AND {
+					rhs = ast.Unparen(u.X)
+				}
+				if cl, isCL := rhs.(*ast.CompositeLit); isCL {
+					for _, el := range cl.Elts {
+						v := el
+						if kv, isKV := el.(*ast.KeyValueExpr); isKV {
+							v = kv.Value
+						}
+						if id, isID := ast.Unparen(v).(*ast.Ident); isID && info.ObjectOf(id) == wobj {
+							holders[info.ObjectOf(lid)] = true
+						}
+					}
+				}
+			}
+			return true
+		})
+	}
+	isHolder := func(e ast.Expr) bool {
+		e = ast.Unparen(e)
+		if u, ok := e.(*ast.UnaryExpr); ok && u.Op == token.AND {
+			e = ast.Unparen(u.X)
+		}
+		id, ok := e.(*ast.Ident)
+		return ok && holders[info.ObjectOf(id)]
+	}
 	writes := func(st ast.Stmt, env map[types.Object]ast.Expr) bool {
 		found := false
 		ast.Inspect(st, func(n ast.Node) bool {
@@ -675,14 +716,12 @@ func boolAttributePresence(c *Ctx, rule string) {
 					return true
 				}
 				for _, a := range call.Args {
-					if id, ok := ast.Unparen(a).(*ast.Ident); ok && info.ObjectOf(id) == wobj && wobj != nil {
+					if isHolder(a) {
 						found = true
 					}
 				}
-				if se, ok := call.Fun.(*ast.SelectorExpr); ok {
-					if id, ok := se.X.(*ast.Ident); ok && info.ObjectOf(id) == wobj && wobj != nil {
-						found = true
-					}
+				if se, ok := call.Fun.(*ast.SelectorExpr); ok && isHolder(se.X) {
+					found = true
 				}
 			}
 			return true
